@@ -63,9 +63,10 @@ def exact_moments(xs):
 class Case:
     """one kernel invocation: `args()` returns fresh argument copies; `call(fn, args)` returns the output array(s)"""
 
-    def __init__(self, kernel, label, dtype, shape, mk, call, ref, work, outs):
+    def __init__(self, kernel, label, dtype, shape, mk, call, ref, work, outs, twin=None):
         self.kernel, self.label, self.dtype, self.shape = kernel, label, dtype, shape
         self.mk, self.call, self.ref, self.work, self.outs = mk, call, ref, work, outs
+        self.twin = twin       # name of the serial kernel compiled from the same Python definition, if any
 
 
 def rec_to_rows(mom):
@@ -183,6 +184,44 @@ def build_cases(K, nprng, shapes_small, shapes_big, tier):
                 lambda x=x, C=C: (x.astype(np.float32).ravel(), np.zeros(C, dtype=K.moments_dtype)),
                 lambda f, a, n1=n1, C=C: _call_moments(f, a, n1, C),
                 lambda x=x, basic=basic: _ref_moments(x, basic), C * N, outs="moments")
+    return cases
+
+
+# factor products at which a reciprocal-multiplication "division" x * (1/n) misses exactly representable quotients
+DECIM_1D = (49, 98, 103, 107, 196)
+DECIM_2D = ((7, 7), (7, 14), (14, 14), (1, 103), (107, 1), (49, 2), (1, 49))
+DECIM_DT = (("u1", np.uint8), ("i4", np.int32), ("f8", np.float64))
+
+
+def decimation_exact_cases(nprng, tier):
+    """decimation on integer-valued data whose bin sums are multiples of the bin size: sum and quotient are exact in float64,
+    so there is one right answer for every dtype; integer outputs expose a quotient that is one ulp low (it truncates)"""
+    cases = []
+    nout = 37                      # more output rows than threads, not a multiple of any thread count
+    for dn, dt in DECIM_DT:
+        for fac in DECIM_1D:
+            hi = min(200, 256 - fac)
+            v = _mean_exact(nprng, nout, fac, hi)
+            for r in range(12):    # some constant bins: the mean of `fac` copies of k
+                v[r, :] = r + 1
+            arr = np.concatenate([v.ravel(), nprng.integers(0, 50, 3)]).astype(dt)
+            cases.append(Case("downsample_1d_mean_parallel", "downsample_1d_mean", dn, (arr.size, fac),
+                              lambda arr=arr: (arr.copy(),), lambda f, a, fac=fac: f(a[0], fac),
+                              lambda v=v, dt=dt: (v.sum(1) // v.shape[1]).astype(dt), arr.size, 1, twin="downsample_1d_mean"))
+        for f1, f2 in DECIM_2D:
+            if tier == "quick" and dn == "i4" and (f1, f2) in ((49, 2), (1, 49)):
+                continue
+            n1, n2 = nout, 3
+            d1, d2 = n1 * f1 + (f1 > 1), n2 * f2 + (f2 > 1)
+            a2 = _mean_exact_2d(nprng, d1, d2, f1, f2, min(200, 256 - f1 * f2))
+            for r in range(4):
+                for c in range(n2):
+                    a2[r * f1:(r + 1) * f1, c * f2:(c + 1) * f2] = 1 + r * n2 + c
+            a2 = a2.astype(dt)
+            cases.append(Case("downsample_2d_mean_parallel", "downsample_2d_mean_flat", dn, (d1, d2, f1, f2),
+                              lambda a2=a2: (a2.ravel().copy(),), lambda f, a, f1=f1, f2=f2, d1=d1, d2=d2: f(a[0], f1, f2, d1, d2),
+                              lambda a2=a2, f1=f1, f2=f2, d1=d1, d2=d2, dt=dt: _ref_ds2(a2, f1, f2, d1, d2, dt), d1 * d2, 1,
+                              twin="downsample_2d_mean_flat"))
     return cases
 
 
@@ -579,7 +618,8 @@ def run(R: vlib.Run):
     quick = R.tier == "quick"
     R.rule = ("runtime sweep: every parallel kernel (both compiled signatures) x shapes from 1 channel x 1 sample to iterations >> threads x "
               "numba.set_num_threads(1..16) x set_parallel_chunksize{0,1,2,7} x repetitions, on integer data whose float32 arithmetic is exact, "
-              "bit-compared with .py_func (NumPy restatement as an exactness cross-check); ownership tracer on .py_func for the small shapes; a case is one compiled "
+              "bit-compared with .py_func (NumPy restatement as an exactness cross-check); decimation additionally on uint8/int32/float64 data with bin sizes "
+              "49, 98, 103, 107, 196 (1-D) and 7x7, 7x14, 14x14, 1x103, 107x1, 49x2, 1x49 (2-D), exact integer means, parallel alias and serial twin against .py_func; ownership tracer on .py_func for the small shapes; a case is one compiled "
               "kernel call; distinct = (kernel, dtype, shape, threads, chunk); non-trivial = more than one iteration of the parallel loop")
     R.trusted += ["Coq 8.16.1 kernel + vm_compute (witnesses, examples, correspondence)",
                   "tools/py2coq/gen_c19.py: the load/store reading of the Python loop bodies (one load per subscript read, `a[i] op= e` = load, loads of e, store; "
@@ -649,6 +689,7 @@ def run(R: vlib.Run):
     # ---------------- oracle 2: runtime sweep ----------------------------------------------------
     reps = 2 if quick else 4
     sweep_cases = build_cases(K, nprng, small if quick else small + [(2, 33), (7, 64)], big, R.tier)
+    sweep_cases += decimation_exact_cases(nprng, R.tier)
     thread_list = list(range(1, maxthreads + 1))
     done_k = set()
     npdiff = {}
@@ -663,6 +704,13 @@ def run(R: vlib.Run):
             # C19 demands: what the kernel computes is the business of C06/C07/C09/C10/C14)
             if out_bytes(cs.ref()) != refb:
                 npdiff.setdefault(cs.kernel, first_diff(ref, cs.ref()))
+            # the serial kernel compiled from the same Python definition must evaluate that definition as well
+            if cs.twin is not None:
+                tw = cs.call(getattr(K, cs.twin), cs.mk())
+                R.case(("twin", cs.twin, cs.dtype, cs.shape), regime=f"serial-twin:{cs.twin}")
+                if out_bytes(tw) != refb:
+                    R.fail(f"serial-{cs.twin}", "serial kernel differs from the sequential evaluation of the Python definition it shares with the parallel kernel",
+                           {"kernel": cs.twin, "dtype": cs.dtype, "shape": list(cs.shape), "diff": first_diff(tw, ref)})
             nfail = 0
             for n in thread_list:
                 numba.set_num_threads(n)
